@@ -360,6 +360,12 @@ func report(cfg *config, e *Engine, results []*funcResult, tLoad, tGen, tSolve, 
 	fmt.Printf("property=%s obligations=%d discharged=%d undecided=%d violations=%d known=%d out_of_reach=%d wall=%.1fs (load %.1f gen %.1f solve %.1f)\n",
 		cfg.prop, nObl, nDis, len(undecided), len(violations), len(knownHits), len(oor), wall, tLoad, tGen, tSolve)
 	if cfg.verbose {
+		var ks []string
+		for k, v := range e.stats {
+			ks = append(ks, fmt.Sprintf("%s=%d", k, v))
+		}
+		sort.Strings(ks)
+		fmt.Println("  calls:", strings.Join(ks, " "))
 		sl := append([]*summaryRow(nil), rows...)
 		sort.Slice(sl, func(i, j int) bool { return sl[i].Secs > sl[j].Secs })
 		for i := 0; i < 5 && i < len(sl); i++ {
